@@ -168,6 +168,18 @@ func (l *staticLeaf) Static() bool {
 		return false
 	}
 
+	// An earlier leaf of the same tree with the same literals (a route having this
+	// segment as its optional one, e.g. "/a/?b" before "/a/b") is matched first by
+	// the tree, so this leaf cannot be looked up by the request path either.
+	for _, sibling := range l.parent.getLeaves() {
+		if sibling == Leaf(l) {
+			break
+		}
+		if sl, ok := sibling.(*staticLeaf); ok && sl.literals == l.literals {
+			return false
+		}
+	}
+
 	ancestor := l.parent
 	for ancestor != nil {
 		if ancestor.getMatchStyle() > matchStyleStatic {
